@@ -670,6 +670,8 @@ fn two_chunks<const CT: u8, const K: usize, const CLASS: usize, const L: usize, 
         vassert!(rd.pos == end_at + 1, "lzma2: reader left just after the end control byte");
         let resets = (if CT == 1 { 1 } else { 0 }) + (if CLASS == 3 { 1 } else { 0 });
         vassert!(sink.writes == resets + 1, "lzma2: one flush per dictionary reset plus the final one");
+        // uncompressed chunks (control 1 or 2) never touch the LZMA state
+        vassert!(crate::decode::lzma::verif_h::reset_count(&dec.lzma_state) == if CLASS >= 1 { 1 } else { 0 }, "lzma2: the decoder state is reset exactly by the chunks that ask for it and carried otherwise");
     }
     vcover!(true, "end_reached");
     forget(dec);
